@@ -468,7 +468,7 @@ impl Report {
         if evals == 0 {
             vacuous.push("no executions".into());
         }
-        if g.outcomes.len() < 2 && unlisted == 0 {
+        if g.outcomes.len() + known_groups.len() < 2 && unlisted == 0 {
             vacuous.push(format!("only {} distinct outcome(s) observed", g.outcomes.len()));
         }
 
@@ -521,7 +521,15 @@ impl Report {
         });
         let evdir = root.join("evidence");
         let _ = std::fs::create_dir_all(&evdir);
-        let evpath = evdir.join(format!("{}.json", self.property));
+        // a property served by several engines: each writes a part, ./check merges them
+        let evpath = match std::env::var("VERIF_EVIDENCE_PART") {
+            Ok(part) if !part.is_empty() => {
+                let d = evdir.join("parts");
+                let _ = std::fs::create_dir_all(&d);
+                d.join(format!("{}.{}.json", self.property, part))
+            }
+            _ => evdir.join(format!("{}.json", self.property)),
+        };
         if let Err(e) = std::fs::write(&evpath, serde_json::to_vec_pretty(&ev).unwrap()) {
             machinery_error(&format!("cannot write evidence {evpath:?}: {e}"));
         }
